@@ -14,6 +14,7 @@
 -/
 import Proofs.ParseFrame
 import Proofs.Monad
+import Proofs.ParseIdem
 
 namespace Measured
 namespace C17
@@ -160,6 +161,88 @@ theorem parse_graph_quantity (g : Grammar) (t : String) (c : Conv α) :
     (CM.exec (parseQuantity g t : CM α (Qty α)) c).2 =
       { c with st := (CM.exec (parseQuantity g t : CM α (Qty α)) c).2.st } := by
   rw [parseQuantity_state]; exact parseStart_graph _ _ _ _ _
+
+end
+end C17
+end Measured
+
+namespace Measured
+namespace C17
+
+section
+variable {α : Type} [Add α] [Sub α] [Mul α] [Div α] [Neg α] [OfNat α 0] [OfNat α 1] [FloatLike α]
+set_option linter.unusedSectionVars false
+
+/-- **C17 (same text twice)**, the parser entry point: in any state satisfying the library's
+    invariants (`Good` = C01's invariant + C02's canonical table; every reachable state does),
+    parsing a text and then parsing it again gives the same outcome — the same unit/quantity object
+    or the same exception — and the second parse changes nothing at all. -/
+theorem parseStart_idempotent (g : Grammar) (start stop : Nat) (t : String) (c : Conv α) (hg : Good c.st) :
+    CM.exec (parseStart g start stop t : CM α (Val α)) (CM.exec (parseStart g start stop t : CM α (Val α)) c).2 =
+      CM.exec (parseStart g start stop t : CM α (Val α)) c := by
+  rw [exec_parseStart g start stop t c]
+  simp only
+  rw [exec_parseStart]
+  simp only
+  rw [parseWith_idempotent transformer_stableActs _ _ _ _ hg]
+
+theorem parse_idempotent_unit (g : Grammar) (t : String) (c : Conv α) (hg : Good c.st) :
+    CM.exec (parseUnit g t : CM α UId) (CM.exec (parseUnit g t : CM α UId) c).2 = CM.exec (parseUnit g t : CM α UId) c := by
+  rw [parseUnit_state, exec_parseUnit g t, parseStart_idempotent g _ _ t c hg, ← exec_parseUnit g t c]
+
+theorem parse_idempotent_quantity (g : Grammar) (t : String) (c : Conv α) (hg : Good c.st) :
+    CM.exec (parseQuantity g t : CM α (Qty α)) (CM.exec (parseQuantity g t : CM α (Qty α)) c).2 =
+      CM.exec (parseQuantity g t : CM α (Qty α)) c := by
+  rw [parseQuantity_state, exec_parseQuantity g t, parseStart_idempotent g _ _ t c hg, ← exec_parseQuantity g t c]
+
+/-- … and, more generally, after ANY further interning in between (`s2` extends the state the first
+    parse left and is still canonical): the second parse returns the first parse's result and leaves
+    `s2` as it is. -/
+theorem parse_repeatable (g : Grammar) (start stop : Nat) (t : String) (s s2 : St) (hg : Good s)
+    (hf : Frame (parseWith g.table g.rules start stop (mkLexConf g.lexOrder g.ignore) (transformerAct (α := α)) Val.tok s t).1 s2)
+    (hg2 : Good s2) :
+    parseWith g.table g.rules start stop (mkLexConf g.lexOrder g.ignore) (transformerAct (α := α)) Val.tok s2 t =
+      (s2, (parseWith g.table g.rules start stop (mkLexConf g.lexOrder g.ignore) (transformerAct (α := α)) Val.tok s t).2) :=
+  parseWith_stable transformer_stableActs _ _ _ _ hg s2 hf hg2
+
+end
+end C17
+end Measured
+
+namespace Measured
+namespace C17
+
+section
+variable {α : Type} [Add α] [Sub α] [Mul α] [Div α] [Neg α] [OfNat α 0] [OfNat α 1] [FloatLike α]
+set_option linter.unusedSectionVars false
+
+/-- **C17 (magnitude type)**: an accepted quantity has an int or a float magnitude — never a
+    Decimal — and its unit exists; in every state satisfying the library's invariants. -/
+theorem parse_magnitude_type (g : Grammar) (t : String) (c : Conv α) (hg : Good c.st) (q : Qty α)
+    (h : (CM.exec (parseQuantity g t : CM α (Qty α)) c).1 = .ok q) :
+    q.mag.isDec = false ∧ q.unit < (CM.exec (parseQuantity g t : CM α (Qty α)) c).2.st.units.length := by
+  rw [exec_parseQuantity] at h ⊢
+  rw [exec_parseStart] at h ⊢
+  have hv := parseWith_vok (t := g.table) (rules := g.rules) (endS := g.endQty) (transformer_stableActs (α := α))
+    (mkLexConf g.lexOrder g.ignore) g.startQty c.st t hg
+  cases hp : parseWith g.table g.rules g.startQty g.endQty (mkLexConf g.lexOrder g.ignore) (transformerAct (α := α)) Val.tok c.st t with
+  | mk s' r =>
+    simp only [hp] at h hv ⊢
+    cases r with
+    | error e => cases h
+    | ok v =>
+      have hvok := hv v rfl
+      cases v with
+      | qty q' =>
+        simp only at h ⊢
+        injection h with h; subst h
+        cases hvok with
+        | qty _ hu hm => exact ⟨hm, hu⟩
+      | tok _ => cases h
+      | unit _ => cases h
+      | exp _ => cases h
+      | mag _ => cases h
+      | tree _ _ => cases h
 
 end
 end C17
